@@ -6,9 +6,10 @@ the seven run forms, an error policy that makes the fault abort the run) the
 run is first executed fault-free and its archive recorded; then, for EVERY
 (member, line) evaluation event, the run is repeated in a fresh world with the
 fault armed at exactly that event, followed by a fault-free recovery run on the
-same instance.  Three ways of aborting: an exception inside a function
-(simfault), a planted bad cell under add() (argument mismatch), and a
-per-member 'validation-mode: raise' under a policy without raise."""
+same instance.  Four ways of aborting: an exception inside a function
+(simfault), a planted bad cell under add() (argument mismatch), a
+per-member 'validation-mode: raise' under a policy without raise, and a failure
+raised outside every match expression (collect() projection on a short record)."""
 import json
 import os
 
@@ -32,7 +33,7 @@ ASSUMPTIONS = [
 REAL = REAL_ALL
 STUB = STUB_ALL + c09.STUB[-1:]
 
-KINDS = ["exc_match", "exc_match", "arg_type", "vmode_raise"]
+KINDS = ["exc_match", "exc_match", "arg_type", "vmode_raise", "limit_raise"]
 POLICIES = [["raise", "collect"], ["raise", "collect", "print"], ["raise", "collect", "stop", "fail", "print"], ["raise", "collect", "fail"], ["raise", "collect", "quiet"], ["raise"], ["raise", "print"]]
 
 
@@ -50,8 +51,8 @@ def generate(rng, i, tier):
             sk = f"{a}-{rng.randint(a + 1, nrec)}"
         scans.append(sk)
     kind = rng.choice(KINDS)
-    if kind == "arg_type":
-        # the header record is itself an argument mismatch for add(): keep line 0 out of every window
+    if kind in ("arg_type", "limit_raise"):
+        # the header record is itself an argument mismatch for add() (and must stay whole for collect()): keep line 0 out of every window
         fixed = []
         for sk in scans:
             if sk == "*":
@@ -64,6 +65,12 @@ def generate(rng, i, tier):
             fixed.append(sk)
         scans = fixed
     policy = rng.choice(POLICIES)
+    method = rng.choice(ops.METHODS)
+    if kind == "limit_raise":
+        # the failure is raised by CsvPath.limit_collection() for a matched line that lacks a projected column: it never
+        # passes through a match expression.  Serial run forms only: in a breadth-first run the narrowed line of one member
+        # is what the next member receives (projection is outside C08's statement), so a fault-free run does not exist there.
+        method = rng.choice(ops.SERIAL)
     vm = None
     if kind == "vmode_raise":
         policy = rng.choice([["collect"], ["collect", "print"], ["collect", "fail"]])
@@ -74,7 +81,7 @@ def generate(rng, i, tier):
         "blanks": blanks,
         "scans": scans,
         "prints": [rng.random() < 0.4 for _ in range(k)],
-        "method": rng.choice(ops.METHODS),
+        "method": method,
         "kind": kind,
         "policy": policy,
         "vmode_member": vm,
@@ -110,7 +117,7 @@ def reductions(sc):
     if sc["method"] != "collect_paths":
         yield with_(sc, method="collect_paths")
     for j, s in enumerate(sc["scans"]):
-        simplest = "1*" if sc["kind"] == "arg_type" else "*"
+        simplest = "1*" if sc["kind"] in ("arg_type", "limit_raise") else "*"
         if s != simplest:
             c = with_(sc)
             c["scans"][j] = simplest
@@ -147,7 +154,7 @@ def points(sc):
         if sc["kind"] == "vmode_raise" and j != sc["vmode_member"]:
             continue
         for l in scanned(sc, j):
-            if sc["kind"] == "arg_type" and l == 0:
+            if sc["kind"] in ("arg_type", "limit_raise") and l == 0:
                 continue
             pts.append((j, l))
     return pts
@@ -157,7 +164,7 @@ def member_text(sc, j):
     head = f"id:m{j}"
     if sc["kind"] == "vmode_raise" and sc["vmode_member"] == j:
         head += " validation-mode:raise"
-    prov = f"@s = add(#n{j}, 1)" if sc["kind"] == "arg_type" else 'simfault("s")'
+    prov = f"@s = add(#n{j}, 1)" if sc["kind"] == "arg_type" else (f'collect("id", "n{j}")' if sc["kind"] == "limit_raise" else 'simfault("s")')
     pr = f' print("m{j} at $.csvpath.line_number")' if sc["prints"][j] else ""
     return f'~{head}~ $[{sc["scans"][j]}][ push("pre", line_number()) {prov} @c = count(){pr} ]'
 
@@ -170,7 +177,10 @@ def build_rows(sc, bad=None):
         if l in sc["blanks"]:
             rows.append([])
             continue
-        rows.append([f"r{l}"] + [("zz" if bad == (j, l) else str((l * 3 + j) % 9 + 1)) for j in range(k)])
+        row = [f"r{l}"] + [("zz" if (bad == (j, l) and sc["kind"] == "arg_type") else str((l * 3 + j) % 9 + 1)) for j in range(k)]
+        if sc["kind"] == "limit_raise" and bad is not None and bad[1] == l:
+            row = row[: bad[0] + 1]  # the record ends before member bad[0]'s column
+        rows.append(row)
     return rows
 
 
@@ -234,9 +244,9 @@ def execute(sc):
         )
         where = f"{meth} policy {sc['policy']} kind {sc['kind']} abort at member m{i} line {L} (scans {sc['scans']}, blanks {sc['blanks']})"
         with W.World(csvpath_policy=sc["policy"]) as w:
-            cs = _setup(sc, w, bad=(i, L) if sc["kind"] == "arg_type" else None)
+            cs = _setup(sc, w, bad=(i, L) if sc["kind"] in ("arg_type", "limit_raise") else None)
             stores = W.tree_hashes("inputs")
-            extfuncs.arm(plan=[] if sc["kind"] == "arg_type" else [(f"m{i}", L, "s")])
+            extfuncs.arm(plan=[] if sc["kind"] in ("arg_type", "limit_raise") else [(f"m{i}", L, "s")])
             c09.TEE.clear()
             exc = None
             try:
@@ -279,7 +289,7 @@ def execute(sc):
                     # finished earlier: must equal the fault-free run's record
                     r0 = ref[f"m{j}"]
                     # under arg_type the data file differs from the reference run in one cell, which shows in data/unmatched rows only
-                    keys = ("vars", "printouts", "errors", "valid", "completed") if sc["kind"] == "arg_type" else ("vars", "data", "unmatched", "printouts", "errors", "valid", "completed")
+                    keys = ("vars", "printouts", "errors", "valid", "completed") if sc["kind"] in ("arg_type", "limit_raise") else ("vars", "data", "unmatched", "printouts", "errors", "valid", "completed")
                     for key in keys:
                         if json.dumps(snap[key], sort_keys=True) != json.dumps(r0[key], sort_keys=True):
                             out.v("earlier_member_incomplete", f"{mw} finished before the abort but its {key} {snap[key]!r:.200} differs from the fault-free run {r0[key]!r:.200}", field=key, **facts)
@@ -291,7 +301,7 @@ def execute(sc):
                 out.v("stores_changed", f"{where}: inputs/ (named files / named paths) changed during the aborted run", **facts)
             # ---- recovery: the next run on the same instance archives normally ----
             extfuncs.arm()
-            if sc["kind"] == "arg_type":
+            if sc["kind"] in ("arg_type", "limit_raise"):
                 # the recovery run needs a file without the bad cell: re-register the clean file
                 w.write_csv("src/f.csv", build_rows(sc))
                 with ops.quiet():
